@@ -1,0 +1,15 @@
+//go:build verif
+
+// Contracts for govc (the /verif contract verifier). Comment-only: with the build tag off this file is not
+// compiled, with it on it adds no code.
+package logical
+
+// C08 (static types are sound): a strict function's result is NULL whenever a null-checked argument is NULL, so the
+// typechecker must give it a type that admits NULL as soon as some argument's static type does — for every argument
+// type whose relation to NULL is `Is` (including an argument typed exactly NULL).
+//@ func (*FunctionExpression).Typecheck
+//@   assumes validT(Null) && Null.TypeID == 0
+//@   loop 9 assumes validT(out.Type)
+//@   loop 9 invariant nullable: 0 <= $k && $k <= len(out.FunctionCall.Arguments) && forall(j, 0, $k, Null.Is(out.FunctionCall.Arguments[j].Type) == 2 ==> Null.Is(out.Type) == 2)
+//@   loop 9 step argument: Null.Is(out.FunctionCall.Arguments[$k - 1].Type) == 2 ==> Null.Is(out.Type) == 2
+//@   ensures strictnullable: out.FunctionCall.FunctionDescriptor.Strict ==> forall(j, 0, len(result.FunctionCall.Arguments), Null.Is(result.FunctionCall.Arguments[j].Type) == 2 ==> Null.Is(result.Type) == 2)
